@@ -177,4 +177,298 @@ Qed.
 Lemma parse_directives_sound c : psound2 (parse_directives fl n c) (D_directives nl c).
 Proof. unfold parse_directives, D_directives. apply while_kind_sound. apply parse_directive_sound. Qed.
 
+(* ---- selections ---- *)
+Lemma parse_named_type_step st t st' : parse_named_type fl st = Ok (t, st') ->
+  exists x, step st [x] st' /\ tk x = KName /\ t = TNamed (name_node nl x) (mkloc nl [x]).
+Proof.
+  intros H. apply parse_named_type_ok in H. destruct H as (x & H1 & H2 & H3 & H4).
+  exists x. split; [apply step_one; auto|auto].
+Qed.
+
+Lemma parse_fragment_name_step st nm st' : parse_fragment_name fl st = Ok (nm, st') ->
+  exists t, step st [t] st' /\ tk t = KName /\ tval t <> str_of_string "on" /\ nm = name_node nl t.
+Proof.
+  unfold parse_fragment_name. intros H. pb H t0 s1 Hp. apply peek_ok in Hp. destruct Hp as [-> [r Hr]].
+  destruct (is_kw "on" (tval t0)) eqn:E; [exfalso; exact (unexpected_not_ok _ _ _ _ H)|].
+  apply parse_name_step in H. destruct H as (t & S & K & ->).
+  pose proof (head_eq Hr S) as E2. subst t0.
+  exists t. split; [exact S|]. split; [exact K|]. split; [|reflexivity].
+  unfold is_kw in E. apply str_eqb_neq in E. exact E.
+Qed.
+
+Definition R_selset (ts : list ptok) (x : list selection * loc) : Prop :=
+  D_selection_set nl ts (fst x) (snd x).
+
+Section Sel.
+Variable sub : parser (list selection * loc).
+Hypothesis Hsub : psound2 sub R_selset.
+
+Lemma parse_field_sound : psound2 (parse_field fl n sub) (D_selection nl).
+Proof.
+  intros st x st' H. unfold parse_field in H.
+  pb H start s0 Hp. apply peek_ok in Hp. destruct Hp as [-> [r Hr]].
+  pb H na s1 Hn. apply parse_name_step in Hn. destruct Hn as (t0 & S0 & K0 & ->).
+  pb H b s2 Hs. pb H an s3 Han.
+  assert (Hhead : exists ats al nt, step st (ats ++ [nt]) s3 /\ D_alias nl ats al /\ tk nt = KName
+                                    /\ an = (al, name_node nl nt)).
+  { apply skip_step in Hs. destruct Hs as [(-> & colon & S1 & Kc)|(-> & ->)].
+    - pb Han nm s4 Hn. apply parse_name_step in Hn. destruct Hn as (t1 & S2 & K1 & ->).
+      apply pret_ok in Han. destruct Han as [-> ->].
+      exists [t0; colon], (Some (name_node nl t0)), t1.
+      split; [exact (S0 >> S1 >> S2)|]. split; [constructor; assumption|]. auto.
+    - apply pret_ok in Han. destruct Han as [-> ->].
+      exists [], None, t0. split; [exact S0|]. split; [constructor|]. auto. }
+  destruct Hhead as (ats & al & nt & Sh & Dal & Knt & ->). simpl in H.
+  pb H args s4 Hargs. apply parse_arguments_sound in Hargs. destruct Hargs as (argts & Sa & Da).
+  pb H dirs s5 Hdirs. apply parse_directives_sound in Hdirs. destruct Hdirs as (dts & Sd & Dd).
+  pb H t s6 Hp. apply peek_ok in Hp. destruct Hp as [-> _].
+  pb H ss s7 Hss.
+  assert (Hssx : exists ssts, step s5 ssts s7 /\ D_opt_selection_set nl ssts (fst ss) (snd ss)).
+  { destruct (is_kind KCurlyO t).
+    - pb Hss x0 s8 Hx. apply Hsub in Hx. destruct Hx as (ssts & Ss & Dss).
+      apply pret_ok in Hss. destruct Hss as [-> ->]. exists ssts. split; [exact Ss|].
+      unfold R_selset in Dss. destruct x0 as [sels l]. simpl in *. destruct Dss. constructor; assumption.
+    - apply pret_ok in Hss. destruct Hss as [-> ->]. exists []. split; [apply step_nil|constructor]. }
+  destruct Hssx as (ssts & Ss & Dss).
+  pose proof (Sh >> Sa >> Sd >> Ss) as S. rewrite <- app_assoc in S. simpl in S.
+  assert (Hne : ats ++ nt :: argts ++ dts ++ ssts <> []) by (destruct ats; discriminate).
+  pb H l s8 Hg. apply (get_loc_mk fl start r st _ _ _ _ Hr S Hne) in Hg. destruct Hg as [-> ->].
+  apply pret_ok in H. destruct H as [-> ->].
+  exists (ats ++ nt :: argts ++ dts ++ ssts). split; [exact S|]. constructor; assumption.
+Qed.
+
+Lemma parse_fragment_sound : psound2 (parse_fragment fl n sub) (D_selection nl).
+Proof.
+  intros st x st' H. unfold parse_fragment in H.
+  pb H start s0 Hp. apply peek_ok in Hp. destruct Hp as [-> [r Hr]].
+  pb H e s1 He. apply expect_step in He. destruct He as [S0 Ke].
+  pose proof (head_eq Hr S0) as E. subst e.
+  pb H lead s2 Hp. apply peek_ok in Hp. destruct Hp as [-> [r1 Hr1]].
+  destruct (is_kind KName lead && negb (is_kw "on" (tval lead))) eqn:Es.
+  - pb H nm s3 Hn. apply parse_fragment_name_step in Hn. destruct Hn as (t & S1 & Kt & Hon & ->).
+    pb H dirs s4 Hd. apply parse_directives_sound in Hd. destruct Hd as (dts & Sd & Dd).
+    pose proof (S0 >> S1 >> Sd) as S. simpl in S.
+    pb H l s5 Hg. apply (get_loc_mk fl start r st _ _ _ _ Hr S ltac:(discriminate)) in Hg.
+    destruct Hg as [-> ->]. apply pret_ok in H. destruct H as [-> ->].
+    exists (start :: t :: dts). split; [exact S|]. constructor; assumption.
+  - pb H tc s3 Htc.
+    assert (Htcx : exists tcts, step s1 tcts s3 /\ D_type_condition nl tcts tc).
+    { destruct (is_kind KName lead && is_kw "on" (tval lead)) eqn:Eo.
+      - pb Htc o s4 Ha. apply advance_step in Ha.
+        pose proof (head_eq Hr1 Ha) as E. subst o.
+        pb Htc t s5 Ht. apply parse_named_type_step in Ht. destruct Ht as (x0 & S2 & K2 & ->).
+        apply pret_ok in Htc. destruct Htc as [-> ->].
+        exists [lead; x0]. split; [exact (Ha >> S2)|]. constructor; [|exact K2].
+        apply andb_true_iff in Eo. destruct Eo as [E1 E2].
+        split; [apply tkind_eqb_eq; exact E1|apply str_eqb_eq; exact E2].
+      - apply pret_ok in Htc. destruct Htc as [-> ->]. exists []. split; [apply step_nil|constructor]. }
+    destruct Htcx as (tcts & Stc & Dtc).
+    pb H dirs s4 Hd. apply parse_directives_sound in Hd. destruct Hd as (dts & Sd & Dd).
+    pb H x0 s5 Hx. apply Hsub in Hx. destruct Hx as (ssts & Ss & Dss).
+    unfold R_selset in Dss. destruct x0 as [sels sl]. simpl in *. destruct Dss as [o body cl sub0 Ko Kc Dsub Hne].
+    pose proof (S0 >> Stc >> Sd >> Ss) as S. simpl in S.
+    pb H l s6 Hg. apply (get_loc_mk fl start r st _ _ _ _ Hr S ltac:(discriminate)) in Hg.
+    destruct Hg as [-> ->]. apply pret_ok in H. destruct H as [-> ->].
+    exists (start :: tcts ++ dts ++ o :: body ++ [cl]). split; [exact S|]. constructor; assumption.
+Qed.
+
+Lemma parse_selection_sound : psound2 (parse_selection fl n sub) (D_selection nl).
+Proof.
+  intros st x st' H. unfold parse_selection in H.
+  pb H t s0 Hp. apply peek_ok in Hp. destruct Hp as [-> _].
+  destruct (is_kind KEllip t); [apply parse_fragment_sound|apply parse_field_sound]; exact H.
+Qed.
+End Sel.
+
+Lemma D_list_selections ts ss : D_list (D_selection nl) ts ss -> D_selections nl ts ss.
+Proof. induction 1; constructor; assumption. Qed.
+
+Lemma parse_selection_set_sound : forall k, psound2 (parse_selection_set fl n k) R_selset.
+Proof.
+  induction k as [|k IH]; intros st x st' H; [discriminate|]. simpl in H.
+  pb H start s0 Hp. apply peek_ok in Hp. destruct Hp as [-> [r Hr]].
+  pb H sels s1 Hm.
+  apply (many_sound _ _ k KCurlyO KCurlyC (parse_selection_sound _ IH)) in Hm.
+  destruct Hm as (ts & S & o & body & cl & -> & Ko & Kc & Hl & Hne).
+  pb H l s2 Hg. apply (get_loc_mk fl start r st _ _ _ _ Hr S ltac:(discriminate)) in Hg.
+  destruct Hg as [-> ->]. apply pret_ok in H. destruct H as [-> ->].
+  exists (o :: body ++ [cl]). split; [exact S|]. unfold R_selset. simpl.
+  constructor; auto. apply D_list_selections; assumption.
+Qed.
+
+(* ---- variable definitions ---- *)
+Lemma parse_variable_definition_sound :
+  psound2 (parse_variable_definition fl n) (D_variable_definition nl).
+Proof.
+  intros st x st' H. unfold parse_variable_definition in H.
+  pb H start s0 Hp. apply peek_ok in Hp. destruct Hp as [-> [r Hr]].
+  pb H v s1 Hv. apply parse_variable_ok in Hv. destruct Hv as (d & t & Hts & Kd & Kt & Hl & ->).
+  assert (S1 : step st [d; t] s1) by (split; [exact Hts|exact Hl]).
+  pb H colon s2 Hc. apply expect_step in Hc. destruct Hc as [S2 Kc].
+  pb H ty0 s3 Ht. apply type_sound2 in Ht. destruct Ht as (tyts & S3 & Hne & Dt).
+  pb H b s4 Hs. pb H dv s5 Hdv.
+  assert (Hdef : exists defts, step s3 defts s5 /\ D_default nl defts dv).
+  { apply skip_step in Hs. destruct Hs as [(-> & eq & S4 & Keq)|(-> & ->)].
+    - pb Hdv v0 s6 Hv0. apply value_sound2 in Hv0. destruct Hv0 as (vts & S5 & _ & Dv).
+      apply pret_ok in Hdv. destruct Hdv as [-> ->].
+      exists (eq :: vts). split; [exact (S4 >> S5)|constructor; assumption].
+    - apply pret_ok in Hdv. destruct Hdv as [-> ->]. exists []. split; [apply step_nil|constructor]. }
+  destruct Hdef as (defts & S4 & Ddef).
+  pb H dirs s6 Hd. apply parse_directives_sound in Hd. destruct Hd as (dts & S5 & Dd).
+  pose proof (S1 >> S2 >> S3 >> S4 >> S5) as S. simpl in S.
+  pose proof (head_eq Hr S) as E. subst d.
+  pb H l s7 Hg. apply (get_loc_mk fl start r st _ _ _ _ Hr S ltac:(discriminate)) in Hg.
+  destruct Hg as [-> ->]. apply pret_ok in H. destruct H as [-> ->]. simpl.
+  exists (start :: t :: colon :: tyts ++ defts ++ dts). split; [exact S|]. constructor; assumption.
+Qed.
+
+Lemma parse_variable_definitions_sound :
+  psound2 (parse_variable_definitions fl n) (D_variable_definitions nl).
+Proof.
+  intros st x st' H. unfold parse_variable_definitions in H.
+  pb H t s1 Hp. apply peek_ok in Hp. destruct Hp as [-> _].
+  destruct (is_kind KParenO t).
+  - apply (many_sound _ _ n KParenO KParenC parse_variable_definition_sound) in H.
+    destruct H as (ts & S & o & body & cl & -> & Ko & Kc & Hl & Hne).
+    exists (o :: body ++ [cl]). split; [exact S|constructor; assumption].
+  - apply pret_ok in H. destruct H as [-> ->]. exists []. split; [apply step_nil|constructor].
+Qed.
+
+(* ---- operations and fragments ---- *)
+Lemma op_kind_of_spec t k : tk t = KName -> op_kind_of (tval t) = Some k -> D_operation_type t k.
+Proof.
+  unfold op_kind_of, is_kw. intros Kt.
+  destruct (str_eqb_spec (tval t) (kw "query")) as [E|_]; [intros H; inversion H; constructor; split; assumption|].
+  destruct (str_eqb_spec (tval t) (kw "mutation")) as [E|_]; [intros H; inversion H; constructor; split; assumption|].
+  destruct (str_eqb_spec (tval t) (kw "subscription")) as [E|_]; [intros H; inversion H; constructor; split; assumption|].
+  discriminate.
+Qed.
+
+Lemma parse_operation_definition_sound :
+  psound2 (parse_operation_definition fl n) (D_operation nl).
+Proof.
+  intros st x st' H. unfold parse_operation_definition in H.
+  pb H start s0 Hp. apply peek_ok in Hp. destruct Hp as [-> [r Hr]].
+  destruct (is_kind KCurlyO start).
+  - pb H x0 s1 Hx. apply parse_selection_set_sound in Hx. destruct Hx as (ts & S & Dss).
+    unfold R_selset in Dss. destruct x0 as [sels sl]. simpl in *.
+    assert (Hne : ts <> []) by (destruct Dss; discriminate).
+    pb H l s2 Hg. apply (get_loc_mk fl start r st _ _ _ _ Hr S Hne) in Hg.
+    destruct Hg as [-> ->]. apply pret_ok in H. destruct H as [-> ->].
+    exists ts. split; [exact S|].
+    assert (sl = mkloc nl ts) by (destruct Dss; reflexivity). subst sl.
+    constructor; assumption.
+  - pb H k s1 Hk. unfold parse_operation_type in Hk.
+    pb Hk kt s2 He. apply expect_step in He. destruct He as [S0 Kk].
+    destruct (op_kind_of (tval kt)) as [kind|] eqn:Eo; [|exfalso; exact (unexpected_not_ok _ _ _ _ Hk)].
+    apply pret_ok in Hk. destruct Hk as [-> ->].
+    pose proof (head_eq Hr S0) as E. subst kt.
+    pb H t s3 Hp. apply peek_ok in Hp. destruct Hp as [-> _].
+    pb H nm s4 Hnm.
+    assert (Hnmx : exists nts, step s2 nts s4 /\ D_opt_name nl nts nm).
+    { destruct (is_kind KName t).
+      - pb Hnm x0 s5 Hn. apply parse_name_step in Hn. destruct Hn as (t1 & S1 & K1 & ->).
+        apply pret_ok in Hnm. destruct Hnm as [-> ->]. exists [t1]. split; [exact S1|constructor; exact K1].
+      - apply pret_ok in Hnm. destruct Hnm as [-> ->]. exists []. split; [apply step_nil|constructor]. }
+    destruct Hnmx as (nts & S1 & Dn).
+    pb H vds s5 Hv. apply parse_variable_definitions_sound in Hv. destruct Hv as (vdts & S2 & Dv).
+    pb H dirs s6 Hd. apply parse_directives_sound in Hd. destruct Hd as (dts & S3 & Dd).
+    pb H x0 s7 Hx. apply parse_selection_set_sound in Hx. destruct Hx as (ssts & S4 & Dss).
+    unfold R_selset in Dss. destruct x0 as [sels sl]. simpl in *.
+    pose proof (S0 >> S1 >> S2 >> S3 >> S4) as S. simpl in S.
+    pb H l s8 Hg. apply (get_loc_mk fl start r st _ _ _ _ Hr S ltac:(discriminate)) in Hg.
+    destruct Hg as [-> ->]. apply pret_ok in H. destruct H as [-> ->].
+    exists (start :: nts ++ vdts ++ dts ++ ssts). split; [exact S|].
+    constructor; auto. apply op_kind_of_spec; assumption.
+Qed.
+
+Lemma parse_fragment_definition_sound :
+  psound2 (parse_fragment_definition fl n) (D_fragment nl (fragment_variables fl)).
+Proof.
+  intros st x st' H. unfold parse_fragment_definition in H.
+  pb H start s0 Hp. apply peek_ok in Hp. destruct Hp as [-> [r Hr]].
+  pb H f s1 Hf. apply expect_keyword_ok in Hf. destruct Hf as [S0 Wf].
+  pose proof (head_eq Hr S0) as E. subst f.
+  pb H nm s2 Hn. apply parse_fragment_name_step in Hn. destruct Hn as (t & S1 & Kt & Hon & ->).
+  pb H vds s3 Hv.
+  assert (Hvx : exists vdts, step s2 vdts s3 /\
+             (if fragment_variables fl then D_variable_definitions nl vdts vds else vdts = [] /\ vds = [])).
+  { destruct (fragment_variables fl).
+    - apply parse_variable_definitions_sound in Hv. exact Hv.
+    - apply pret_ok in Hv. destruct Hv as [-> ->]. exists []. split; [apply step_nil|auto]. }
+  destruct Hvx as (vdts & S2 & Dv).
+  pb H o s4 Ho. apply expect_keyword_ok in Ho. destruct Ho as [S3 Wo].
+  pb H tc s5 Ht. apply parse_named_type_step in Ht. destruct Ht as (tcn & S4 & Ktc & ->).
+  pb H dirs s6 Hd. apply parse_directives_sound in Hd. destruct Hd as (dts & S5 & Dd).
+  pb H x0 s7 Hx. apply parse_selection_set_sound in Hx. destruct Hx as (ssts & S6 & Dss).
+  unfold R_selset in Dss. destruct x0 as [sels sl]. simpl in *.
+  pose proof (S0 >> S1 >> S2 >> S3 >> S4 >> S5 >> S6) as S. simpl in S.
+  pb H l s8 Hg. apply (get_loc_mk fl start r st _ _ _ _ Hr S ltac:(discriminate)) in Hg.
+  destruct Hg as [-> ->]. apply pret_ok in H. destruct H as [-> ->].
+  exists (start :: t :: vdts ++ o :: tcn :: dts ++ ssts). split; [exact S|]. constructor; assumption.
+Qed.
+
+Lemma parse_executable_definition_sound :
+  psound2 (parse_executable_definition fl n) (D_executable_definition nl (fragment_variables fl)).
+Proof.
+  intros st x st' H. unfold parse_executable_definition in H.
+  pb H start s0 Hp. apply peek_ok in Hp. destruct Hp as [-> _].
+  destruct (is_kind KName start).
+  - destruct (op_kind_of (tval start)).
+    + apply parse_operation_definition_sound in H. destruct H as (ts & S & D).
+      exists ts. split; [exact S|constructor 1; exact D].
+    + destruct (is_kw "fragment" (tval start)); [|exfalso; exact (unexpected_not_ok _ _ _ _ H)].
+      apply parse_fragment_definition_sound in H. destruct H as (ts & S & D).
+      exists ts. split; [exact S|constructor 2; exact D].
+  - destruct (is_kind KCurlyO start); [|exfalso; exact (unexpected_not_ok _ _ _ _ H)].
+    apply parse_operation_definition_sound in H. destruct H as (ts & S & D).
+    exists ts. split; [exact S|constructor 1; exact D].
+Qed.
+
+(* ---- documents (type-system definitions disabled) ---- *)
+Hypothesis Hexec : allow_type_system fl = false.
+
+Lemma parse_definition_sound :
+  psound2 (parse_definition fl n) (D_executable_definition nl (fragment_variables fl)).
+Proof.
+  intros st x st' H. unfold parse_definition in H. rewrite Hexec in H.
+  pb H start s0 Hp. apply peek_ok in Hp. destruct Hp as [-> _].
+  destruct (is_kind KName start).
+  - destruct (mem_str (tval start) (map kw executable_keywords));
+      [apply parse_executable_definition_sound; exact H|exfalso; exact (unexpected_not_ok _ _ _ _ H)].
+  - destruct (is_kind KCurlyO start); [apply parse_executable_definition_sound; exact H|].
+    simpl in H. exfalso; exact (unexpected_not_ok _ _ _ _ H).
+Qed.
+
+Lemma definitions_loop_sound : forall k st xs st', definitions_loop fl n k st = Ok (xs, st') ->
+  exists body eof, step st (body ++ [eof]) st' /\ tk eof = KEOF
+    /\ D_list (D_executable_definition nl (fragment_variables fl)) body xs /\ xs <> [].
+Proof.
+  induction k as [|k IH]; intros st xs st' H; [discriminate|]. simpl in H.
+  pb H d s1 Hd. apply parse_definition_sound in Hd. destruct Hd as (ts1 & S1 & D1).
+  pb H b s2 Hs. apply skip_step in Hs. destruct Hs as [(-> & eof & S2 & Ke)|(-> & ->)].
+  - apply pret_ok in H. destruct H as [-> ->].
+    exists ts1, eof. split; [exact (S1 >> S2)|]. split; [exact Ke|]. split; [|discriminate].
+    rewrite <- (app_nil_r ts1). constructor; [exact D1|constructor].
+  - pb H ds s3 Hds. apply IH in Hds. destruct Hds as (body & eof & S3 & Ke & Dl & _).
+    apply pret_ok in H. destruct H as [-> ->].
+    exists (ts1 ++ body), eof. split; [rewrite <- app_assoc; exact (S1 >> S3)|].
+    split; [exact Ke|]. split; [constructor; assumption|discriminate].
+Qed.
+
+Theorem parse_document_p_sound st d st' :
+  parse_document_p fl n st = Ok (d, st') ->
+  exists ts, step st ts st' /\ D_document_exec nl (fragment_variables fl) ts d.
+Proof.
+  intros H. unfold parse_document_p in H.
+  pb H start s0 Hp. apply peek_ok in Hp. destruct Hp as [-> [r Hr]].
+  pb H sof s1 Hs. apply expect_step in Hs. destruct Hs as [S0 Ks].
+  pose proof (head_eq Hr S0) as E. subst sof.
+  pb H defs s2 Hd. apply definitions_loop_sound in Hd. destruct Hd as (body & eof & S1 & Ke & Dl & Hne).
+  pose proof (S0 >> S1) as S. simpl in S.
+  pb H l s3 Hg. apply (get_loc_mk fl start r st _ _ _ _ Hr S ltac:(discriminate)) in Hg.
+  destruct Hg as [-> ->]. apply pret_ok in H. destruct H as [-> ->].
+  exists (start :: body ++ [eof]). split; [exact S|]. constructor; assumption.
+Qed.
+
 End Sound.
